@@ -45,7 +45,7 @@ var colSched = vstat.New("C20", "c20.sched")
 type tagWrite struct{ tag int }
 
 func (tagWrite) writeFrame(writeContext) error { return nil }
-func (tagWrite) staysWithinBuffer(int) bool     { return true }
+func (tagWrite) staysWithinBuffer(int) bool    { return true }
 
 type mFrame struct {
 	tag  int
